@@ -83,7 +83,9 @@ func cancelFromTask(c *simCtx) {
 	if c.err != nil {
 		return
 	}
-	t.req = request{kind: opCancel, ctx: c, cold: true}
+	// a real scheduling point: what other tasks do between an earlier operation of this task (closing the
+	// transport, say) and this cancellation is something real executions decide too
+	t.req = request{kind: opCancel, ctx: c}
 	t.call()
 }
 
